@@ -50,6 +50,12 @@ def setup_env():
     # make sure we really import the tree under test, not an installed copy
     import nanoemoji  # noqa
 
+    try:
+        from absl import logging as absl_logging
+
+        absl_logging.set_verbosity(absl_logging.ERROR)
+    except Exception:
+        pass
     p = Path(nanoemoji.__file__).resolve()
     if SRC.resolve() not in p.parents:
         raise RuntimeError(f"nanoemoji imported from {p}, expected under {SRC}")
